@@ -157,6 +157,11 @@ func (u *c08E2EUI) SetAutoComplete(func(string) string) {}
 
 // c08E2ERunCLI runs `pprof <args> p` once through driver.PProf and returns "err" or the bytes written.
 func c08E2ERunCLI(data []byte, args []string) (out string) {
+	return c08E2ERunCLIWith(data, args, &c09Obj{}, c09Sym{})
+}
+
+// c08E2ERunCLIWith: sym == nil lets the driver install the REAL symbolizer over the given object tool
+func c08E2ERunCLIWith(data []byte, args []string, obj plugin.ObjTool, sym plugin.Symbolizer) (out string) {
 	restore := idriver.VerifGlobals()
 	defer restore()
 	defer func() {
@@ -167,8 +172,11 @@ func c08E2ERunCLI(data []byte, args []string) (out string) {
 	ui := &c08E2EUI{}
 	mw := &c10MemWriter{}
 	off := c10StdoutOffset()
-	o := &plugin.Options{UI: ui, Obj: &c09Obj{}, Sym: c09Sym{}, Writer: mw, Flagset: newC09Flags(append(append([]string{}, args...), "p")),
+	o := &plugin.Options{UI: ui, Obj: obj, Writer: mw, Flagset: newC09Flags(append(append([]string{}, args...), "p")),
 		Fetch: c09Fetch{data}, HTTPTransport: transport.New(nil)}
+	if sym != nil {
+		o.Sym = sym
+	}
 	done := make(chan error, 1)
 	go func() {
 		defer func() {
@@ -373,6 +381,8 @@ func c08E2E(c *Ctx) {
 	defer restore()
 	c08E2ECLI(c)
 	c08E2ENumLabels(c)
+	c08E2ELegacy(c)
+	c08E2ESym(c)
 	c08E2ESession(c)
 	c08E2EWeb(c)
 	c.Extra["e2e_wall_ms"] = time.Since(t0).Milliseconds()
